@@ -288,3 +288,34 @@ func VHarnessC16Literal() {
 		vReach("literal")
 	}
 }
+
+// VHarnessC16Restart: the differ gives up a search round when more than routeSize points have been
+// recorded, records the partial script and restarts on the remainders. With the production budget
+// (2,000,000 points) that needs thousands of differing elements; the restart logic itself does not
+// depend on the budget, so the differ is constructed as diffSlice does, with a small budget, and the
+// same reconstruction oracle is applied to what compose() returns.
+func VHarnessC16Restart() {
+	kind, m, n := vParam("kind"), vParam("m"), vParam("n")
+	a, b := vSeq(kind, m, "a").(starlark.Sliceable), vSeq(kind, n, "b").(starlark.Sliceable)
+	if vEqual(a, b) {
+		return
+	}
+	old, new := a, b
+	reverse := false
+	if m >= n {
+		a, b = b, a
+		m, n = n, m
+		reverse = true
+	}
+	d := differ{a: a, b: b, m: m, n: n, reverse: reverse, depth: 10, routeSize: vParam("budget")}
+	edits, err := d.compose()
+	vAssert(err == nil, "restart-no-error")
+	if err != nil {
+		return
+	}
+	if d.ox != 0 || d.oy != 0 {
+		vReach("restarted")
+	}
+	vCheckSeqDiff(old, new, &SliceableDiff{valueDiff: valueDiff{old: old, new: new}, edits: edits}, "restart")
+	vReach("composed")
+}
